@@ -1471,12 +1471,265 @@ fn exhaustive(ck: &mut Check) {
 /// and f32/f64 (std and `default-features = false` builds) need the interval-arithmetic log2
 /// enclosure of C11 (`lb <= log2 x <= ub`, exact comparison at powers of two).  Subs for that
 /// clause are registered here once the oracle exists; until then the clause is NOT covered.
-fn log2_subs(_ck: &mut Check) {}
+fn log2_subs(ck: &mut Check) {
+    if ck.is_replay() || !ck.wants("log2_bounds") {
+        return;
+    }
+    use dv::ball::{self, Ball};
+    use dv::fl::Sci;
+    // both builds of the estimator: f32::log2 (std) and the 8-bit table (default-features = false)
+    let builds: Vec<(&str, Result<String, String>)> = vec![
+        ("native-std-assert", dv::evalrun::build("native-std-assert", None, true, true)),
+        ("native-nostd-assert", dv::evalrun::build("native-nostd-assert", None, false, true)),
+    ];
+    let mut bins = Vec::new();
+    for (n, b) in builds {
+        match b {
+            Ok(p) => bins.push((n, p)),
+            Err(e) => infra(&e),
+        }
+    }
+    // ---- case lines with their exact |x| as a ball-producing closure
+    enum X {
+        Int(BigInt),
+        Ratio(BigInt, BigInt),
+        Sci(Sci),
+        F64(f64),
+    }
+    let th = ck.thorough();
+    let mut lines: Vec<(String, X, &'static str)> = Vec::new();
+    let hx = |n: &BigInt| format!("{}{}", if n.is_negative() { "-" } else { "" }, n.magnitude().to_str_radix(16));
+    // sampled wide primitives
+    let seed = seed_mix(ck.seed, 0x1062);
+    let mut r = gen::SplitMix(seed);
+    let n_prim = if th { 200_000 } else { 12_000 };
+    for i in 0..n_prim {
+        let ty = ["u32", "u64", "u128", "usize", "i32", "i64", "i128", "isize"][i % 8];
+        let bits: u32 = match ty {
+            "u32" | "i32" => 32,
+            "u128" | "i128" => 128,
+            _ => 64,
+        };
+        let signed = ty.starts_with('i');
+        let k = r.below(bits as u64 - signed as u64) as u32;
+        let mag: u128 = match r.below(5) {
+            0 => 1u128 << k,
+            1 => (1u128 << k).saturating_sub(1).max(1),
+            2 => (1u128 << k) + 1,
+            3 => ((r.next() as u128) << 64 | r.next() as u128) >> (128 - k - 1),
+            _ => ((r.next() as u128) << 64 | r.next() as u128) >> (128 - bits + signed as u32),
+        }
+        .max(1);
+        let mag = if bits < 128 { mag & ((1u128 << (bits - signed as u32)) - 1) } else if signed { mag >> 1 } else { mag }.max(1);
+        let neg = signed && r.below(2) == 0;
+        let text = if neg { format!("-{mag}") } else { format!("{mag}") };
+        lines.push((format!("plog2 {ty} {text}"), X::Int(BigInt::from(mag)), "log2:wide primitive (sampled)"));
+    }
+    // floats
+    let n_f = if th { 200_000 } else { 12_000 };
+    for i in 0..n_f {
+        if i % 2 == 0 {
+            let bits: u32 = match r.below(5) {
+                0 => ((r.below(254) as u32 + 1) << 23) | if r.below(2) == 0 { 0 } else { 1 }, // powers of two (+1 ulp)
+                1 => r.below(1 << 23) as u32 + 1,                                              // subnormal
+                2 => 0x3f800000u32.wrapping_add(r.below(64) as u32).wrapping_sub(32),          // next to 1.0
+                _ => (r.next() as u32) & 0x7fffffff,
+            };
+            let bits = bits | if r.below(4) == 0 { 0x8000_0000 } else { 0 };
+            let v = f32::from_bits(bits);
+            if v.is_finite() && v != 0.0 {
+                lines.push((format!("flog2 f32 {bits:08x}"), X::F64(v as f64), "log2:f32"));
+            }
+        } else {
+            let bits: u64 = match r.below(5) {
+                0 => (r.below(2046) + 1) << 52 | r.below(2),
+                1 => r.below(1 << 52) + 1,
+                2 => 0x3ff0000000000000u64.wrapping_add(r.below(64)).wrapping_sub(32),
+                _ => r.next() & 0x7fff_ffff_ffff_ffff,
+            };
+            let v = f64::from_bits(bits);
+            if v.is_finite() && v != 0.0 {
+                lines.push((format!("flog2 f64 {bits:016x}"), X::F64(v), "log2:f64"));
+            }
+        }
+    }
+    // big numbers
+    let n_big = if th { 60_000 } else { 4_000 };
+    let nats = sample_strategy(&gen::nat_nz(Prof::Medium), seed_mix(seed, 1), n_big);
+    let dens = sample_strategy(&gen::nat_nz(Prof::Small), seed_mix(seed, 2), n_big);
+    for (i, (a, d)) in nats.iter().zip(dens.iter()).enumerate() {
+        let ia = BigInt::from(a.big());
+        match i % 5 {
+            0 => lines.push((format!("biglog2 u {}", hx(&ia)), X::Int(ia), "log2:UBig")),
+            1 => lines.push((format!("biglog2 i -{}", hx(&ia)), X::Int(ia), "log2:IBig")),
+            2 => {
+                let id = BigInt::from(d.big());
+                lines.push((format!("biglog2 r {} {}", hx(&ia), hx(&id)), X::Ratio(ia, id), "log2:RBig"))
+            }
+            3 => {
+                let m = BigInt::from(d.big());
+                let e = (r.below(200_001) as i64) - 100_000;
+                lines.push((format!("biglog2 d {} {} 0", hx(&m), e), X::Sci(Sci::new(m, e, 10)), "log2:FBig base 10"))
+            }
+            _ => {
+                let m = BigInt::from(d.big());
+                let e = (r.below(2_000_001) as i64) - 1_000_000;
+                lines.push((format!("biglog2 b {} {} 0", hx(&m), e), X::Sci(Sci::new(m, e, 2)), "log2:FBig base 2"))
+            }
+        }
+    }
+    let exhaustive_types = ["u8", "i8", "u16", "i16"];
+    let mut all_lines: Vec<String> = lines.iter().map(|l| l.0.clone()).collect();
+    for t in exhaustive_types {
+        all_lines.push(format!("plog2all {t}"));
+    }
+
+    let parse3 = |s: &str| -> Option<(f32, f32, f32)> {
+        let mut it = s.split_whitespace().map(|t| u32::from_str_radix(t, 16).ok().map(f32::from_bits));
+        Some((it.next()??, it.next()??, it.next()??))
+    };
+    // |x| as f64 log2 (fast filter) and as a rigorous enclosure (fallback)
+    let truth_f64 = |x: &X| -> f64 {
+        match x {
+            X::Int(n) => {
+                let b = n.bits();
+                let top = (n.magnitude() >> b.saturating_sub(60)).to_u64_digits().first().copied().unwrap_or(0) as f64;
+                top.log2() + b.saturating_sub(60) as f64
+            }
+            X::F64(v) => v.abs().log2(),
+            _ => f64::NAN,
+        }
+    };
+    let truth_ball = |x: &X| -> Option<Ball> {
+        let w = 128;
+        let b = match x {
+            X::Int(n) => Ball::from_int(&n.abs()),
+            X::Ratio(n, d) => Ball::from_int(&n.abs()).div(&Ball::from_int(d), w)?,
+            X::Sci(s) => {
+                // log2(m·B^e) = log2 m + e·log2 B, so that huge exponents are never materialised
+                let lm = ball::log2(&Ball::from_int(&s.n.abs()), w)?;
+                let lb = ball::log2(&Ball::from_u64(s.base), w)?;
+                return Some(lm.add(&lb.mul_int(&BigInt::from(s.e), w), w));
+            }
+            X::F64(v) => {
+                let bits = v.abs().to_bits();
+                let e = ((bits >> 52) & 0x7ff) as i64;
+                let frac = (bits & ((1u64 << 52) - 1)) as i64;
+                let (m, ex) = if e == 0 { (frac, -1074) } else { (frac | (1 << 52), e - 1075) };
+                Ball::exact(BigInt::from(m), ex)
+            }
+        };
+        ball::log2(&b, w)
+    };
+    let f32_sci = |f: f32| -> Option<Sci> {
+        if !f.is_finite() {
+            return None;
+        }
+        let bits = f.to_bits();
+        let e = ((bits >> 23) & 0xff) as i64;
+        let frac = (bits & 0x7fffff) as i64;
+        let (m, ex) = if e == 0 { (frac, -149) } else { (frac | 0x800000, e - 150) };
+        Some(Sci::new(BigInt::from(if bits >> 31 == 1 { -m } else { m }), ex, 2))
+    };
+    let judge = |desc: &str, x: &X, ans: &str, build: &str| -> Result<(), String> {
+        if ans == "PANIC" {
+            return Err(format!("{desc}: log2_bounds panicked in the {build} build"));
+        }
+        let (lb, ub, est) = parse3(ans).ok_or_else(|| format!("{desc}: unreadable answer '{ans}' ({build})"))?;
+        if lb.is_nan() || ub.is_nan() || est.is_nan() || !(lb <= ub) {
+            return Err(format!("{desc}: bounds ({lb}, {ub}) est {est} are not ordered numbers ({build})"));
+        }
+        if !(lb <= est && est <= ub) {
+            return Err(format!("{desc}: estimate {est} outside its own bounds ({lb}, {ub}) ({build})"));
+        }
+        let t = truth_f64(x);
+        if t.is_finite() && (lb as f64) < t - 1e-9 && (ub as f64) > t + 1e-9 {
+            return Ok(());
+        }
+        let enc = truth_ball(x).ok_or_else(|| format!("{desc}: oracle could not enclose log2"))?;
+        if let Some(s) = f32_sci(lb) {
+            if ball::side(&enc, &s) == ball::Side::Above {
+                return Err(format!("{desc}: lower bound {lb} exceeds the true log2 ({build} build)"));
+            }
+        } else if lb == f32::INFINITY {
+            return Err(format!("{desc}: lower bound +inf ({build})"));
+        }
+        if let Some(s) = f32_sci(ub) {
+            if ball::side(&enc, &s) == ball::Side::Below {
+                return Err(format!("{desc}: upper bound {ub} is below the true log2 ({build} build)"));
+            }
+        } else if ub == f32::NEG_INFINITY {
+            return Err(format!("{desc}: upper bound -inf ({build})"));
+        }
+        Ok(())
+    };
+
+    let mut labels: BTreeMap<&'static str, u64> = BTreeMap::new();
+    let mut evaluations = 0u64;
+    let mut violation: Option<(String, serde_json::Value)> = None;
+    let mut samples = Vec::new();
+    for (bname, bin) in &bins {
+        let answers = match dv::evalrun::run(bin, &all_lines, &format!("c12-log2-{bname}")) {
+            Ok(a) => a,
+            Err(e) => infra(&e),
+        };
+        for (i, (line, x, label)) in lines.iter().enumerate() {
+            evaluations += 1;
+            *labels.entry(label).or_default() += 1;
+            if samples.len() < 4 && i % 997 == 0 {
+                samples.push(json!({"case": line, "build": bname, "answer (lb ub est as f32 bits)": answers[i]}));
+            }
+            if violation.is_none() {
+                if let Err(sig) = judge(line, x, &answers[i], bname) {
+                    violation = Some((sig, json!({"line": line, "build": bname})));
+                }
+            }
+        }
+        // exhaustive 8/16-bit primitives
+        for (k, t) in exhaustive_types.iter().enumerate() {
+            let ans = &answers[lines.len() + k];
+            let toks: Vec<&str> = ans.split_whitespace().collect();
+            let (min, count): (i64, usize) = match *t {
+                "u8" => (0, 256),
+                "i8" => (-128, 256),
+                "u16" => (0, 65536),
+                _ => (-32768, 65536),
+            };
+            if toks.len() != 3 * count {
+                infra(&format!("plog2all {t}: {} tokens", toks.len()));
+            }
+            for j in 0..count {
+                let v = min + j as i64;
+                if v == 0 {
+                    continue;
+                }
+                evaluations += 1;
+                *labels.entry("log2:every u8/i8/u16/i16 value (exhaustive)").or_default() += 1;
+                if violation.is_none() {
+                    let a3 = format!("{} {} {}", toks[3 * j], toks[3 * j + 1], toks[3 * j + 2]);
+                    if let Err(sig) = judge(&format!("plog2 {t} {v}"), &X::Int(BigInt::from(v)), &a3, bname) {
+                        violation = Some((sig, json!({"line": format!("plog2 {t} {v}"), "build": bname})));
+                    }
+                }
+            }
+        }
+    }
+    let distinct = (lines.len() + 2 * 65535 + 2 * 255) as u64;
+    ck.external(
+        "log2_bounds",
+        evaluations,
+        distinct,
+        labels,
+        samples,
+        violation,
+        Some(json!({"builds": bins.iter().map(|b| b.0).collect::<Vec<_>>(), "exhaustive": "every non-zero u8, i8, u16, i16 value in both builds", "sampled_lines": lines.len()})),
+    );
+}
 
 fn main() {
     let mut ck = Check::new(
         "C12",
-        "gcd/gcd_ext: pairs by construction — structured pairs (equal, a±1, multiples, unbalanced), one operand zero, (g·x, g·y), Fibonacci-like pairs (all quotients 1), continued fractions with chosen partial quotients around 2^63/2^64 (Lehmer quotient overflow), a = b·q + r with q ≈ 2^64·k, operands with zero low words/bits (incl. pure powers of two), both zero; UBig/IBig/mixed in all ownership forms; g compared with num-integer's gcd and s·a + t·b = g evaluated exactly. Primitives: every u8 pair, structured u16..u128/usize. Roots: x = s² + r for every remainder class, x = r^n + {0, ±1, random} for n in {1,2,3,4,5,7,8,16,63,64,65}, n around/above the bit length, n = 0, every word count 0..8 and larger, both signs; r^n <= x < (r+1)^n and rem = x − r^n in num-bigint; every u8 and u16 value plus structured u32/u64/u128 for the primitive impls. ilog: x = b^e + {0, ±1, random} for bases 2, 3, 10, 2^k, 2^64−1, 2^64, 2^64+1, word, dword, multi-word; b^e <= |x| < b^(e+1). remove: x = c·f^k, exact multiplicity by repeated division. Documented panics asserted with their message. Non-trivial: a big operand of >= 2 words (primitives: non-zero operands); distinct by case digest. log2_bounds/log2_est NOT covered yet (see log2_subs).",
+        "gcd/gcd_ext: pairs by construction — structured pairs (equal, a±1, multiples, unbalanced), one operand zero, (g·x, g·y), Fibonacci-like pairs (all quotients 1), continued fractions with chosen partial quotients around 2^63/2^64 (Lehmer quotient overflow), a = b·q + r with q ≈ 2^64·k, operands with zero low words/bits (incl. pure powers of two), both zero; UBig/IBig/mixed in all ownership forms; g compared with num-integer's gcd and s·a + t·b = g evaluated exactly. Primitives: every u8 pair, structured u16..u128/usize. Roots: x = s² + r for every remainder class, x = r^n + {0, ±1, random} for n in {1,2,3,4,5,7,8,16,63,64,65}, n around/above the bit length, n = 0, every word count 0..8 and larger, both signs; r^n <= x < (r+1)^n and rem = x − r^n in num-bigint; every u8 and u16 value plus structured u32/u64/u128 for the primitive impls. ilog: x = b^e + {0, ±1, random} for bases 2, 3, 10, 2^k, 2^64−1, 2^64, 2^64+1, word, dword, multi-word; b^e <= |x| < b^(e+1). remove: x = c·f^k, exact multiplicity by repeated division. Documented panics asserted with their message. Non-trivial: a big operand of >= 2 words (primitives: non-zero operands); distinct by case digest. log2_bounds/log2_est: lb <= log2|x| <= ub and lb <= est <= ub for every non-zero u8/i8/u16/i16 value, sampled wider primitives, f32/f64 classes, UBig/IBig/RBig/FBig (exponents to ±10^6), in both the std build and the default-features=false build (8-bit table), judged with a rigorous log2 enclosure.",
     );
     ck.assume("num-integer 0.1 `Integer::gcd` for BigUint as the reference gcd (self-checked per case: g | a, g | b, coprime cofactors)");
     let th = ck.thorough();
